@@ -1,7 +1,228 @@
 import BarterModel.Lemmas.Unrealised
+/-!
+# C15 — Unrealised PnL of an open position tracks the instrument's latest price
+
+Statements only (proofs go through `Lemmas/Unrealised.lean`, `Lemmas/Position.lean`).
+
+* `EngineState` is the engine model (`Model/Unrealised.lean`): per instrument the two market-data
+  registers and the position manager; `EngineState.process` is `Engine::process` on a market item
+  or a fill. `Spec` is the abstract spec the `spec` driver runs: per instrument the *mark* (the
+  price the estimate has to be evaluated at: the fill price after a fill, the current price after
+  any market event once a price exists) and `SpecI.upnl`, the demanded value `estimate p mark`.
+* Histories are arbitrary lists of events (`Ev`): any interleaving of fills and market events
+  (public trades, top-of-book updates, price-less items), any instruments, any timestamps (stale
+  market data included). `ValidEvs`: every fill has a positive quantity (documented precondition;
+  market events are unconstrained). Events naming an unknown instrument change nothing (the code
+  panics; the driver reports `panic`).
+* `estimate p price` = price move on the open quantity − entry fees × open/max quantity
+  (`Unrealised.estimate`), `currentPrice` = volume-weighted mid of the held top of book, else the
+  last traded price.
+
+Known finding F6 (DESIGN §8, `known_findings.txt` `clause=after_fill/opening_fill`): after a fill
+that OPENS a position the code stores 0 although the estimate at the fill price is minus the entry
+fees. The theorems below state the property wherever it is true, pin the exception exactly
+(`opening_fill_zero`), and prove the negation of the full statement with concrete witnesses.
+-/
 namespace BarterModel.Props.C15
 open BarterModel.Position BarterModel.Stale BarterModel.Unrealised
 
-theorem placeholder : (1 : Nat) = 1 := rfl
+/-- Reachable engine states with `n` instruments. -/
+def Reach (n : Nat) (s : EngineState) : Prop :=
+  ∃ evs, ValidEvs evs ∧ s = (EngineState.init n).run evs
+
+/-- The model's `price()` is the property's "current price". -/
+theorem current_price (d : MarketData) : price d = currentPrice d :=
+  (currentPrice_eq_price d).symm
+
+/-- The spec's estimate is the code's `calculate_pnl_unrealised` on the position's own fields. -/
+theorem estimate_is_documented (p : Position) (pr : Rat) :
+    estimate p pr =
+      calculatePnlUnrealised p.side p.priceEntryAverage p.quantityAbs p.quantityAbsMax p.feesEnter pr :=
+  estimate_eq_calculate p pr
+
+/-- (1) `refreshed`. From ANY engine state (no reachability needed), after the engine processes a
+market event for a known instrument: the registers have processed the event; if a position is open
+and a current price exists, `pnl_unrealised` is the estimate at that current price (whatever the
+event carried — a stale event re-evaluates at the newer price already held); the position is
+otherwise untouched (in particular it stays open / flat); every other instrument is unchanged. -/
+theorem refreshed (s : EngineState) (ev : MarketEvent) (st : InstrumentState)
+    (hst : s[ev.instrument]? = some st) :
+    ∃ st', (s.process (.market ev))[ev.instrument]? = some st' ∧
+      st'.data = processData st.data ev ∧
+      (∀ p' pr, st'.position.current = some p' → currentPrice st'.data = some pr →
+        p'.pnlUnrealised = estimate p' pr) ∧
+      Agree st'.position.current st.position.current ∧
+      ∀ j, j ≠ ev.instrument → (s.process (.market ev))[j]? = s[j]? := by
+  refine ⟨st.updateFromMarket ev, ?_, ?_, ?_, ?_, ?_⟩
+  · simp [EngineState.process, EngineState.updateFromMarket, modifyAt_getElem?, hst]
+  · unfold InstrumentState.updateFromMarket
+    cases st.position.current <;> simp only
+    split <;> rfl
+  · intro p' pr hp' hpr
+    rw [currentPrice_eq_price] at hpr
+    unfold InstrumentState.updateFromMarket at hp' hpr
+    cases hc : st.position.current with
+    | none => simp [hc] at hp'
+    | some p =>
+      simp only [hc] at hp' hpr
+      cases hpd : price (processData st.data ev) with
+      | none => simp [hpd] at hpr
+      | some pr' =>
+        simp only [hpd, Option.some.injEq] at hp' hpr
+        subst hp'; subst hpr
+        rw [updatePnlUnrealised_eq]; rfl
+  · unfold InstrumentState.updateFromMarket
+    cases hc : st.position.current with
+    | none => simp [hc, Agree]
+    | some p =>
+      simp only
+      split
+      · simp [hc, Agree]
+      · simp only [Agree, updatePnlUnrealised_eq]
+  · intro j hj
+    simp [EngineState.process, EngineState.updateFromMarket, modifyAt_getElem?, hj]
+
+/-- (2) `never_stale`. For EVERY interleaving of fills and market events from the initial state and
+every instrument: the model's `pnl_unrealised` observation equals what the spec demands (the
+estimate at the mark = the later of the last fill's price and the current price after the last
+priced market event; `none` when flat) — at all times, hence never a value computed from an older
+price — unless the mark comes from a fill that opened the position AND that position carries
+non-zero entry fees (known finding F6, pinned exactly by `opening_fill_zero`). -/
+theorem never_stale (n : Nat) (evs : List Ev) (hv : ValidEvs evs) (i : Nat) (st : InstrumentState)
+    (hst : ((EngineState.init n).run evs)[i]? = some st) :
+    ∃ sp, ((Spec.init n).run evs)[i]? = some sp ∧
+      ((∀ m p, sp.mark = some m → m.src = .openingFill → st.position.current = some p →
+          p.feesEnter = 0) →
+        st.upnl = sp.upnl) := by
+  obtain ⟨sp, hsp, hrel⟩ := relAll_get (relAll_run (relAll_init n) evs hv) hst
+  refine ⟨sp, hsp, ?_⟩
+  intro hex
+  cases hc : st.position.current with
+  | none => obtain ⟨h1, h2⟩ := rel_upnl_none hrel hc; rw [h1, h2]
+  | some p =>
+    obtain ⟨m, hm, ho, hn⟩ := hrel.mark p hc
+    rw [rel_spec_upnl hrel p hc m hm]
+    simp only [InstrumentState.upnl, hc, Option.map_some, Option.some.injEq]
+    by_cases hsrc : m.src = .openingFill
+    · obtain ⟨h0, he⟩ := ho hsrc
+      rw [h0, he, hex m p hm hsrc hc]; rfl
+    · exact hn hsrc
+
+/-- The exception of `never_stale`, exactly: whenever the mark comes from an opening fill, the
+model's `pnl_unrealised` is 0 and the spec demands minus the position's entry fees. -/
+theorem opening_fill_zero (n : Nat) (evs : List Ev) (hv : ValidEvs evs) (i : Nat)
+    (st : InstrumentState) (hst : ((EngineState.init n).run evs)[i]? = some st)
+    (p : Position) (hp : st.position.current = some p) :
+    ∃ sp m, ((Spec.init n).run evs)[i]? = some sp ∧ sp.mark = some m ∧
+      (m.src = .openingFill → p.pnlUnrealised = 0 ∧ sp.upnl = some (-p.feesEnter)) := by
+  obtain ⟨sp, hsp, hrel⟩ := relAll_get (relAll_run (relAll_init n) evs hv) hst
+  obtain ⟨m, hm, ho, _⟩ := hrel.mark p hp
+  refine ⟨sp, m, hsp, hm, ?_⟩
+  intro hsrc
+  obtain ⟨h0, he⟩ := ho hsrc
+  exact ⟨h0, by rw [rel_spec_upnl hrel p hp m hm, he]⟩
+
+/-- (3) `after_fill_partial`. In every reachable state, after a fill that INCREASES (same side) or
+REDUCES (opposite side, smaller than the open quantity) an existing position, the position is still
+open and its `pnl_unrealised` is the estimate at the fill price.
+
+**Partial**: the property text demands this after *every* fill. Missing: the fill that opens a
+position (first fill on a flat instrument, or the remainder of a flip). For those the statement is
+FALSE in the code (known finding F6, test-pinned in /repo): `opening_fill_not_estimate`,
+`flip_remainder_not_estimate` below are the proved counter-examples and `opening_fill_zero` the
+general law (`pnl_unrealised = 0`, estimate `= -fees_enter`). -/
+theorem after_fill_partial {n : Nat} {s : EngineState} (hr : Reach n s) (t : Trade)
+    (st : InstrumentState) (hst : s[t.instrument]? = some st) (p : Position)
+    (hp : st.position.current = some p)
+    (harm : p.side = t.side ∨ (p.side ≠ t.side ∧ abs t.quantity < p.quantityAbs)) :
+    ∃ st' p', (s.process (.fill t))[t.instrument]? = some st' ∧
+      st'.position.current = some p' ∧ p'.pnlUnrealised = estimate p' t.price := by
+  obtain ⟨evs, hv, rfl⟩ := hr
+  obtain ⟨sp, _, hrel⟩ := relAll_get (relAll_run (relAll_init n) evs hv) hst
+  have hi : p.instrument = t.instrument := (hrel.wf p hp).instr
+  have hget : ((EngineState.init n).run evs |>.process (.fill t))[t.instrument]? =
+      some (st.updateFromTrade t) := by
+    simp [EngineState.process, EngineState.updateFromTrade, modifyAt_getElem?, hst]
+  rcases updateFromTrade_cases p t hi with ⟨_, he⟩ | ⟨_, _, he⟩ | ⟨hs, heq, _⟩ | ⟨hs, hlt, _⟩
+  · refine ⟨_, _, hget, ?_, increase_upnl (p.pushTrade t.id) t⟩
+    simp [InstrumentState.updateFromTrade, PositionManager.update, hp, he]
+  · refine ⟨_, _, hget, ?_, reduce_upnl (p.pushTrade t.id) t⟩
+    simp [InstrumentState.updateFromTrade, PositionManager.update, hp, he]
+  · rcases harm with h | ⟨_, h⟩
+    · exact (hs h).elim
+    · grind
+  · rcases harm with h | ⟨_, h⟩
+    · exact (hs h).elim
+    · grind
+
+/-! ### Negation of the full statement (known finding F6) -/
+
+/-- Buy 2 @ 100 with fee 1 on a flat instrument. -/
+def witnessOpening : List Ev := [.fill ⟨1, 0, 1, .buy, 100, 2, 1⟩]
+
+/-- Buy 2 @ 100 (no fee), then sell 3 @ 110 with fee 3: the remainder (short 1 @ 110) carries
+entry fees 1. -/
+def witnessFlip : List Ev :=
+  [.fill ⟨1, 0, 1, .buy, 100, 2, 0⟩, .fill ⟨2, 0, 2, .sell, 110, 3, 3⟩]
+
+/-- The full "after a fill" clause is false: there is a valid history (one opening fill) after
+which the open position's `pnl_unrealised` (0) differs from the estimate at the fill price (−1),
+which is what the spec demands. -/
+theorem opening_fill_not_estimate :
+    ∃ (evs : List Ev) (st : InstrumentState) (sp : SpecI) (p : Position) (m : Mark),
+      ValidEvs evs ∧ ((EngineState.init 1).run evs)[0]? = some st ∧
+      ((Spec.init 1).run evs)[0]? = some sp ∧ st.position.current = some p ∧ sp.mark = some m ∧
+      m.price = 100 ∧ p.pnlUnrealised = 0 ∧ estimate p m.price = -1 ∧
+      p.pnlUnrealised ≠ estimate p m.price ∧ st.upnl ≠ sp.upnl := by
+  refine ⟨witnessOpening,
+    ⟨MarketData.init, ⟨some (Position.ofTrade ⟨1, 0, 1, .buy, 100, 2, 1⟩)⟩⟩,
+    ⟨MarketData.init, ⟨some (Position.ofTrade ⟨1, 0, 1, .buy, 100, 2, 1⟩)⟩, some ⟨100, .openingFill⟩⟩,
+    Position.ofTrade ⟨1, 0, 1, .buy, 100, 2, 1⟩, ⟨100, .openingFill⟩, ?_⟩
+  decide +kernel
+
+/-- Same for the remainder of a flip. -/
+theorem flip_remainder_not_estimate :
+    ∃ (evs : List Ev) (st : InstrumentState) (sp : SpecI) (p : Position) (m : Mark),
+      ValidEvs evs ∧ ((EngineState.init 1).run evs)[0]? = some st ∧
+      ((Spec.init 1).run evs)[0]? = some sp ∧ st.position.current = some p ∧ sp.mark = some m ∧
+      m.price = 110 ∧ p.side = .sell ∧ p.quantityAbs = 1 ∧ p.pnlUnrealised = 0 ∧
+      estimate p m.price = -1 ∧ st.upnl ≠ sp.upnl := by
+  refine ⟨witnessFlip,
+    ⟨MarketData.init, ⟨some (Position.ofTrade ⟨2, 0, 2, .sell, 110, 1, 1⟩)⟩⟩,
+    ⟨MarketData.init, ⟨some (Position.ofTrade ⟨2, 0, 2, .sell, 110, 1, 1⟩)⟩, some ⟨110, .openingFill⟩⟩,
+    Position.ofTrade ⟨2, 0, 2, .sell, 110, 1, 1⟩, ⟨110, .openingFill⟩, ?_⟩
+  decide +kernel
+
+/-! ### Non-vacuity: the hypotheses are satisfied by non-trivial histories -/
+
+/-- long 2 @ 100 (fee 1), a trade at 150, a two-sided book, an increase, a stale trade, a reduce -/
+def sample : List Ev :=
+  [ .fill ⟨1, 0, 1, .buy, 100, 2, 1⟩,
+    .market ⟨0, 2, .trade 150⟩,
+    .market ⟨0, 3, .bookL1 ⟨3, 99, 1, 101, 3⟩⟩,
+    .fill ⟨2, 0, 4, .buy, 110, 2, 1⟩,
+    .market ⟨0, 1, .trade 90⟩,
+    .market ⟨1, 5, .trade 7⟩,
+    .fill ⟨3, 0, 6, .sell, 120, 1, 1/2⟩ ]
+
+example : ValidEvs sample := by decide +kernel
+example : Reach 2 ((EngineState.init 2).run sample) := ⟨sample, by decide +kernel, rfl⟩
+/-- after the first three events: open long, current price = 99·(3/4) + 101·(1/4) = 99.5,
+`pnl_unrealised` = (99.5 − 100)·2 − 1 = −2, mark from a market event. -/
+example : (((EngineState.init 2).run (sample.take 3))[0]?.bind (·.upnl)) = some (-2 : Rat) ∧
+    (((Spec.init 2).run (sample.take 3))[0]?.bind (·.upnl)) = some (-2 : Rat) ∧
+    (((Spec.init 2).run (sample.take 3))[0]?.bind (·.mark)) = some ⟨199/2, .market⟩ := by
+  decide +kernel
+/-- after the increase (4 events) the mark is the fill price 110 with source `fill`, and the
+hypotheses of `after_fill_partial` held for it (same side as the open long). -/
+example : (((Spec.init 2).run (sample.take 4))[0]?.bind (·.mark)) = some ⟨110, .fill⟩ ∧
+    (((EngineState.init 2).run (sample.take 4))[0]?.bind (·.upnl)) =
+      (((Spec.init 2).run (sample.take 4))[0]?.bind (·.upnl)) := by
+  decide +kernel
+/-- the premise of `never_stale` (no opening-fill mark with fees) holds at the end of `sample`
+(the mark is the reducing fill's price) and fails right after the first event. -/
+example : (((Spec.init 2).run sample)[0]?.bind (·.mark)) = some ⟨120, .fill⟩ ∧
+    (((Spec.init 2).run (sample.take 1))[0]?.bind (·.mark)) = some ⟨100, .openingFill⟩ := by
+  decide +kernel
 
 end BarterModel.Props.C15
